@@ -331,6 +331,40 @@ def stepC06 (ts : List String) : String :=
     | _, _, _, _, _, _ => "bad-op"
   | _ => "bad-op"
 
+def showRows (r : Except Err (List (List Int))) : String :=
+  match r with
+  | .ok rows => s!"ok {rows.length} {showInts rows.flatten}".trimAsciiEnd.toString
+  | .error e => s!"err {e.name}"
+
+/-- `C07 op g s n N C p1 p2 p3 <C aux values> x…`  (aux = delays or mask bits) -/
+def stepC07 (ts : List String) : String :=
+  match ts with
+  | op :: g :: s :: n :: N :: C :: p1 :: p2 :: p3 :: rest =>
+    match g.toNat?, s.toNat?, n.toNat?, N.toNat?, C.toNat?, p1.toInt?, p2.toNat?, p3.toNat? with
+    | some g, some s, some n, some N, some C, some p1, some p2, some p3 =>
+      match natList? (rest.take C), intList? (rest.drop C) with
+      | some aux, some flat =>
+        if op == "invert" then showRows (Transform.invertFreq flat C g s n N)
+        else if op == "mask" then showRows (Transform.maskChannels (aux.map (· != 0)) p1 flat C g s n N)
+        else if op == "samps" then showRows (Transform.extractSamps flat C g s n N)
+        else if op == "chan" then showRows (Transform.extractChan p2 flat C g s n N)
+        else if op == "band" then showRows (Transform.extractBand p2 p3 flat C g s n N)
+        else if op == "downsample" then showRows (Transform.downsample flat C p2 p3 g s n N)
+        else if op == "subband" then showRows (Transform.subband flat C aux p2 g s n N)
+        else if op == "bandstarts" then s!"ok {showNats (Transform.bandStarts g s n)}"
+        else if op == "zerodm" then
+          (match Reduce.bandpass flat C g s n N, Transform.extractSamps flat C g s n N with
+           | .ok (cnt, sums), .ok rows =>
+             let bp : List Rat := sums.map (fun (x : Int) => ((x : Int) : Rat) / ((cnt : Nat) : Rat))
+             if bp.sum = 0 then "err ZeroBandpass" else
+             s!"ok {rows.length} " ++ " ".intercalate ((rows.flatMap (Transform.zerodmRow bp)).map showRat)
+           | .error e, _ => s!"err {e.name}"
+           | _, .error e => s!"err {e.name}")
+        else "bad-op"
+      | _, _ => "bad-op"
+    | _, _, _, _, _, _, _, _ => "bad-op"
+  | _ => "bad-op"
+
 def step (line : String) : String :=
   match (line.trimAscii.toString.splitOn " ").filter (· ≠ "") with
   | "C03" :: rest => stepC03 rest
@@ -338,6 +372,7 @@ def step (line : String) : String :=
   | "C02" :: rest => stepC02 rest
   | "C05" :: rest => stepC05 rest
   | "C06" :: rest => stepC06 rest
+  | "C07" :: rest => stepC07 rest
   | "C04" :: rest => stepC04 rest
   | "C10" :: rest => stepC10 rest
   | _ => "bad-op"
